@@ -105,7 +105,7 @@ class Oracle:
 def step_raised_after(w: ctl.World, rec: dict) -> bool:
     """True if the step that was in flight when the kill arrived is the one that raised."""
     enters = [t for t in w.trace[:rec['ntrace']] if t[3] == 'enter']
-    if not enters:
+    if not enters or not w.program:
         return False
     last = enters[-1][0]
     idx = int(last[1:])
@@ -167,7 +167,48 @@ def units_for(tier: str) -> List[Any]:
     return units
 
 
+WC_ALPHABET = (('kill', 't1'), ('kill', 't2'), ('pause',), ('play',), ('cancel',))
+
+
+def wc_cfg(unit: Any) -> ctl.Config:
+    return ctl.Config(alphabet=WC_ALPHABET, closing=('gates',))
+
+
+class WcFactory:
+    def __init__(self) -> None:
+        from .. import wcharness
+        self.make_run = ctl.make_runner(wc_cfg, Oracle, cls_for=wcharness.cls_for, world_cls=wcharness.WcWorld)
+
+
+def wc_factory() -> WcFactory:
+    return WcFactory()
+
+
+def wc_units(tier: str) -> List[Any]:
+    import itertools
+    units: List[Any] = []
+    for n in (1, 2):
+        for items in itertools.product((('gate', 'ok'), ('child', 'ok')), repeat=n):
+            for how in ('return', 'call'):
+                units.append(((items, how, False), None))
+    return units
+
+
 def run_check(tier: str, seed: int, workers: Any) -> Dict[str, Any]:
+    from .. import runner
+    part1 = run_processes(tier, seed, workers)
+    budget = {'K': 2, 'J': 2} if tier == 'quick' else {'K': 3, 'J': 2}
+    part2 = runner.run_explorer(
+        wc_factory, (), wc_units(tier), budget, seed, workers,
+        rule='work chains waiting for 1-2 loop futures / launched children: every placement of <=K requests from '
+             + repr(WC_ALPHABET) + ' and every order / placement of <=J early completions; same kill oracle',
+        assumptions=[], bounds=dict(budget, n_items=2), describe=lambda u: {'items': u[0][0], 'how': u[0][1]})
+    for v in part2['violations']:
+        v['features'] = dict(v.get('features', {}), part='workchain')
+    return runner.merge([part1, part2])
+
+
+def run_processes(tier: str, seed: int, workers: Any) -> Dict[str, Any]:
     from .. import runner
     budget = {'K': 2, 'J': 1} if tier == 'quick' else {'K': 3, 'J': 1}
     units = units_for(tier)
@@ -181,10 +222,17 @@ def run_check(tier: str, seed: int, workers: Any) -> Dict[str, Any]:
         bounds={'K': budget['K'], 'J': budget['J'], 'program_len': 3}, describe=lambda u: programs.describe(u[0]))
 
 
+def is_wc_unit(unit: Any) -> bool:
+    try:
+        return unit[0][0][0][0] in ('gate', 'child')
+    except Exception:  # noqa: BLE001
+        return False
+
+
 def replay(doc: Dict[str, Any]) -> List[Dict[str, Any]]:
     from ..cli import to_tuple
     from ..explore import Chooser
     unit = to_tuple(doc['unit'])
-    run = factory().make_run(unit)
+    run = (wc_factory() if is_wc_unit(unit) else factory()).make_run(unit)
     res = run(Chooser(tuple(doc['choices'])))
     return res.violations
